@@ -26,8 +26,49 @@ def play(spec):
     nq = 0
     keys = sorted({(o[1], o[2], o[3]) for o in ops if o[0] != 'rebuild'})
 
+    def rep_invariant(tag):
+        """the representation invariant the deductive contracts of the mutators take as precondition (DESIGN 10.2, C09): per-order
+        trees of dicts, no dict object reachable by two paths, no empty mapping left behind, tuple leaves, no trailing empty
+        per-order mapping, reference counts at least the number of entries per provided"""
+        counts = {}
+        for label, byorder, subs in (('_adapters', r._adapters, False), ('_subscribers', r._subscribers, True)):
+            seen = set()
+            if byorder and not byorder[-1]:
+                bad.append(('rep-trailing-empty', '%s: %s ends with an empty per-order mapping' % (tag, label)))
+
+            def walk(node, depth, order):
+                if not isinstance(node, dict):
+                    bad.append(('rep-node-type', '%s: %s holds a %s where a mapping is expected (depth %d of order %d)' % (tag, label, type(node).__name__, depth, order)))
+                    return
+                if id(node) in seen:
+                    bad.append(('rep-shared-node', '%s: a mapping of %s is reachable by two paths' % (tag, label)))
+                    return
+                seen.add(id(node))
+                if not node and depth > 0:
+                    bad.append(('rep-empty-mapping', '%s: an empty mapping was left behind in %s (depth %d of order %d)' % (tag, label, depth, order)))
+                for k, v in node.items():
+                    if depth <= order:
+                        walk(v, depth + 1, order)
+                    else:
+                        # leaf level {name: value}
+                        prov = None
+                        if subs and (not isinstance(v, tuple) or not v):
+                            bad.append(('rep-leaf', '%s: a subscription leaf is %r' % (tag, v)))
+            for order, root in enumerate(byorder):
+                walk(root, 0, order)
+        n_by_provided = {}
+        for req, p, n, v in r.allRegistrations():
+            n_by_provided[p] = n_by_provided.get(p, 0) + 1
+        for req, p, v in r.allSubscriptions():
+            if p is not None:
+                n_by_provided[p] = n_by_provided.get(p, 0) + 1
+        for p, n in n_by_provided.items():
+            if r._provided.get(p, 0) < n:
+                bad.append(('rep-count', '%s: the reference count of %s is %r with %d live entries' % (tag, p.__name__, r._provided.get(p), n)))
+
     def observe(tag):
         nonlocal nq
+        rep_invariant(tag)
         # listings
         got = {(req, p, n): v for req, p, n, v in r.allRegistrations()}
         if len(got) != len(list(r.allRegistrations())):
@@ -161,7 +202,7 @@ def replay(spec):
 
 
 def run(ctx):
-    ctx.rule = ('random histories of <=7 (and structured fill/rebuild/drain histories of <=11) register/unregister/subscribe/unsubscribe/rebuild/register(None) calls over 3 keys '
+    ctx.rule = ('after every step the representation invariant the deductive contracts assume (trees of dicts without shared or empty mappings, tuple leaves, counts); ' +'random histories of <=7 (and structured fill/rebuild/drain histories of <=11) register/unregister/subscribe/unsubscribe/rebuild/register(None) calls over 3 keys '
                 '(arity 0..2, None required, handlers), equal-but-distinct values, either flavour, with a deriving registry; after '
                 'every step listings, registered(), subscribed(), all lookups and subscriptions compared with the dictionary '
                 'replay of the history; finally replay of the listings into a fresh registry; distinct = histories')
